@@ -147,7 +147,7 @@ fn oracle(c: &Case, out: &RunOut) -> (bool, String, usize, usize) {
             let too_long = match it {
                 Item::Req { h, .. } => *h >= MAXB + c.r,
                 Item::Endless => true,
-                Item::Chunked { .. } => false,
+                Item::Chunked { .. } | Item::Bad => false,
             };
             if too_long {
                 let earlier_respond = c.handlers.iter().take(k).all(|h| h.iter().any(|a| matches!(a, HAct::Respond(_)))) && c.handlers.len() >= k;
